@@ -68,7 +68,7 @@ def cases(tier, seed):
                         for method in ("uniform", "grid"):
                             out.append(dict(type="hist", cfg=dict(kind="ode", nt=n, bt=b, tmin=dom[0], tmax=dom[1], method=method, key=key), x64=x64))
                             out.append(dict(type="hist", cfg=dict(kind="statio", n=n, bx=b, dim=1, min_pts=[dom[0]], max_pts=[dom[1]], nb=2, bb=2, method=method, key=key), x64=x64))
-                            out.append(dict(type="hist", cfg=dict(kind="nonstatio", n=n, bx=b, nt=n, bt=b, dim=1, min_pts=[dom[0]], max_pts=[dom[1]],
+                            out.append(dict(type="hist", cfg=dict(kind="nonstatio", n=n, bx=b, nt=n + 2, bt=b, dim=1, min_pts=[dom[0]], max_pts=[dom[1]],
                                                                   tmin=DOMS[(di + 1) % 5][0], tmax=DOMS[(di + 1) % 5][1], nb=2, bb=2, method=method,
                                                                   cartesian=bool((n + b) % 2), key=key), x64=x64))
                             out.append(dict(type="hist", cfg=dict(kind="param", n=n, b=b, ranges={"nu": dom, "mu": DOMS[(di + 2) % 5]},
@@ -237,7 +237,10 @@ def _ctor_cfg(kind, method, dom, n, key):
     if kind == "statio":
         return dict(kind="statio", n=n, bx=1, dim=1, min_pts=[dom[0]], max_pts=[dom[1]], nb=2, bb=2, method=method, key=key)
     if kind == "nonstatio":
-        return dict(kind="nonstatio", n=n, bx=1, nt=n, bt=1, dim=1, min_pts=[dom[0]], max_pts=[dom[1]], tmin=dom[0], tmax=dom[1], nb=2, bb=2,
+        # the numbers of time and space points differ (alternately nt > n and nt < n), and so do their domains
+        other = max(1, n // 3)
+        nt_, n_ = (n, other) if n % 2 else (other, n)
+        return dict(kind="nonstatio", n=n_, bx=1, nt=nt_, bt=1, dim=1, min_pts=[dom[0]], max_pts=[dom[1]], tmin=dom[0] + 0.25, tmax=dom[1] + 0.5, nb=2, bb=2,
                     method=method, key=key)
     return dict(kind="param", n=n, b=1, ranges={"nu": dom}, user={}, method=method, key=key)
 
